@@ -19,7 +19,7 @@ def plan(tier, seed):
                  'c16::Cmp4<%s, %s>::reg()' % (t, t)]
     for a, b in [(S8, S32), (S32, S8), (S16, S64), (S64, S32), (S32, S64)]:
         regs += ['c16::Cmp<%s, %s>::reg()' % (a, b), 'c16::Cmp4<%s, %s>::reg()' % (a, b)]
-    cases = 100000 if quick else 3000000
+    cases = 300000 if quick else 4000000
     enum_max = 2 ** 16 if quick else 2 ** 32
     units = [Unit('C16-gxx-%d' % i, 'gxx', 'props/C16.h', part, rc_cases=cases, enum_max=enum_max, chunk=8)
              for i, part in enumerate(split(regs, 8))]
